@@ -122,7 +122,11 @@ fn generate_panicable_code<'db>(
                 } else {
                     ""
                 };
-            format!("{}{}", ref_kw, param.name(db).as_syntax_node().get_text(db))
+            format!(
+                "{}{}",
+                ref_kw,
+                param.name(db).as_syntax_node().get_text_without_trivia(db).long(db)
+            )
         })
         .join(", ");
     builder.add_modified(RewriteNode::interpolate_patched(
